@@ -54,4 +54,10 @@ PROPERTIES = {
     "C03": {"scans": [_scans_engine]},
     "C04": {"lemmas": [_lemma_not_wedged], "scans": [_scans_engine]},
     "C14": {},
+    "C05": {"assumptions": [
+        "asyncio.gather / as_completed / run_async_from_sync: assumed contracts (pyvc/models.py); the order of effects inside one callback group is left unconstrained, as documented",
+        "relational reading: sync and async functions are verified against the SAME contract classes"]},
+    "C10": {"scans": [_scans_engine]},
+    "C11": {},
+    "C13": {},
 }
